@@ -5,7 +5,7 @@ sh setup.sh >/dev/null 2>&1
 : >> thorough-summary.txt
 for p in "$@"; do
   s=$(date +%s)
-  timeout 1500 ./check $p --tier thorough > thorough-$p.log 2>&1
+  timeout 1800 ./check $p --tier thorough > thorough-$p.log 2>&1
   rc=$?
   e=$(date +%s)
   echo "$p exit=$rc secs=$((e-s))" >> thorough-summary.txt
